@@ -270,7 +270,7 @@ def generated_programs(tier, seed, work):
     good = [p for p in progs if p["expect"] == "accept"]
     rng = random.Random(seed)
     rng.shuffle(good)
-    limit = 60 if tier == "quick" else 500
+    limit = 40 if tier == "quick" else 400
     return [dict(name=p["name"], text=p["text"], src="generated") for p in good[:limit]]
 
 
